@@ -13,7 +13,7 @@ from mc.ref import geom
 ID = "C17"
 RULE = ("timelines of 1..3 frames at {0, 100, 250} ms (thorough: also 4 frames, + 400 ms) x every query in a menu of 11-13 times "
         "(before, on, between, after frames; mid-points) x tolerances {0, 40, 75, 200} ms x all presence patterns of objects "
-        "{A,B,C} per frame x objects in BASE_LINK or MAP x quaternion sign flips, with yaw pairs across +-pi and moving ego poses; "
+        "{A,B,C} per frame x objects in BASE_LINK, MAP or the frame of a tilted ego (roll/pitch/height) x quaternion sign flips, with yaw pairs across +-pi and moving ego poses; "
         "seams get_now_frame, get_interpolated_now_frame, manager.get_ground_truth_now_frame; every query is issued twice on the "
         "same list. state = (n frames, presence pattern class, frame kind, query position class, tolerance class, outcome kind); "
         "non-trivial = a neighbour is gated by the tolerance or an object appears/disappears between the neighbours")
@@ -39,8 +39,10 @@ def worker_init():
 def units(tier, seed):
     u = []
     for nfr in ((1, 2, 3) if tier == "quick" else (1, 2, 3, 4)):
-        for frame in ("base_link", "map"):
+        for frame in ("base_link", "map", "base_link_tilt"):
             for neg in (False, True):
+                if frame == "base_link_tilt" and (neg or nfr == 1):
+                    continue
                 pats = list(itertools.product(itertools.product((0, 1), repeat=nfr), repeat=3))
                 if nfr >= 3:
                     pats = [p for p in pats if sum(map(sum, p)) >= nfr + 1]
@@ -70,7 +72,29 @@ def run_unit(unit, acc):
         check_case(dict(nfr=unit["nfr"], frame=unit["frame"], neg=unit["neg"], pres=pat, queries=queries(_SEED[0], unit["nfr"]), tols=TOLS), acc)
 
 
+def _tilt_ego(k):
+    e = EGO[k]
+    return (e[0], e[1], 0.4 + 0.1 * k, e[2], 0.3 - 0.05 * k, -0.1 + 0.04 * k)
+
+
+def _obj_tilt(u, k):
+    """object given in the frame of a tilted ego (roll / pitch / height): local pose = E^-1 * global planar pose."""
+    import numpy as np
+    from pyquaternion import Quaternion
+    from perception_eval.common.label import AutowareLabel, Label
+    from perception_eval.common.object import DynamicObject
+    from perception_eval.common.shape import Shape, ShapeType
+    x, y, yaw = POSE[u][k]
+    E = np.array(geom.pose_matrix(*_tilt_ego(k)))
+    O = np.array(geom.pose_matrix(x, y, 0.0, yaw))
+    Lm = np.linalg.inv(E) @ O
+    return DynamicObject(TIMES[k], FrameID.BASE_LINK, tuple(float(v) for v in Lm[:3, 3]), Quaternion(matrix=Lm[:3, :3], atol=1e-6), Shape(ShapeType.BOUNDING_BOX, (1.0, 2.0, 1.0)),
+                         (1.0, 0.0, 0.0), 1.0, Label(AutowareLabel.CAR, "car", []), pointcloud_num=5, uuid=u)
+
+
 def _obj(u, k, frame, neg):
+    if frame == "base_link_tilt":
+        return _obj_tilt(u, k)
     x, y, yaw = POSE[u][k]
     if frame == "base_link":
         x, y, yaw = geom.map_to_ego(x, y, yaw, EGO[k])
@@ -83,7 +107,7 @@ def _frames(case):
     out = []
     for k in range(nfr):
         objs = [_obj(u, k, case["frame"], case["neg"] and k == 1) for ui, u in enumerate("ABC") if case["pres"][ui][k]]
-        out.append(F.frame_gt(objs, EGO[k], TIMES[k], str(k)))
+        out.append(F.frame_gt(objs, _tilt_ego(k) if case["frame"] == "base_link_tilt" else EGO[k], TIMES[k], str(k)))
     return out
 
 
